@@ -194,7 +194,14 @@ class Interp:
                 if s["k"] == "LetStmt":
                     if "init" in s:
                         for v, en2 in self.eval(s["init"], en):
-                            _, en3 = self.match_pat(s["pat"], v, en2)
+                            m_, en3 = self.match_pat(s["pat"], v, en2)
+                            if "else" in s and m_ is not True:
+                                # `let P = v else { diverge }`: the else block runs when the pattern does not match (it returns or panics)
+                                for v2, en4 in self.eval({"k": "Block", **s["else"]} if s["else"].get("k") != "Block" else s["else"], en2):
+                                    if v2 != NEVER:
+                                        nxt.append(en4)
+                                if m_ is False:
+                                    continue
                             nxt.append(en3)
                     else:
                         nxt.append(en)
